@@ -77,11 +77,11 @@ func (c rcase) text() string {
 
 // written is what the writer produced for one case.
 type written struct {
-	err     error
+	err            error
 	panicked, site string
-	code    *encoder.QRCode
-	version int
-	mask    int
+	code           *encoder.QRCode
+	version        int
+	mask           int
 }
 
 func encodeMatrix(text string, o opt) (w written) {
